@@ -473,6 +473,57 @@ func VerifH14() {
 }
 
 // ---------------------------------------------------------------------------
+// H14r — the rows the reader hands out are the handler's to keep (C14): three
+// tuples (one text column, the middle one NULL or a value — the solver's
+// choice — the others one symbolic byte each) in one CopyData message; the
+// handler keeps every row it gets and looks at them only after the last Read.
+// Each kept row still is the row that was decoded for it.
+// ---------------------------------------------------------------------------
+func VerifH14r() {
+	v0, v1, v2 := nondetBytes(1), nondetBytes(1), nondetBytes(1)
+	midNull := nondetBool()
+	stream := vCat(vCopyHeader, vU16(1), vU32(1), v0)
+	if midNull {
+		stream = vCat(stream, vU16(1), []byte{0xff, 0xff, 0xff, 0xff})
+	} else {
+		stream = vCat(stream, vU16(1), vU32(1), v1)
+	}
+	stream = vCat(stream, vU16(1), vU32(1), v2, []byte{0xff, 0xff})
+	input := vCat(vMsgBytes('d', stream), vMsgBytes('c', nil))
+	w := vNewWorld(input, 128)
+	cr := NewCopyReader(w.rd, w.wr, vTextColumns(1))
+	br, err := NewBinaryColumnReader(w.ctx, cr)
+	vAssert("column-reader-ok", err == nil)
+	var kept [][]any
+	var endErr error
+	for k := 0; k < 5; k++ {
+		row, err := br.Read(w.ctx)
+		if err != nil {
+			endErr = err
+			break
+		}
+		kept = append(kept, row)
+	}
+	vAssert("three-rows-then-end-of-stream", len(kept) == 3 && endErr == io.EOF)
+	if len(kept) != 3 {
+		return
+	}
+	is := func(row []any, want []byte) bool {
+		s, ok := row[0].(string)
+		return len(row) == 1 && ok && vEqStr(s, string(want))
+	}
+	vAssert("first-kept-row-is-the-first-tuple", is(kept[0], v0))
+	if midNull {
+		vAssert("second-kept-row-is-the-null-tuple", len(kept[1]) == 1 && kept[1][0] == nil)
+		vReach("a-null-between-two-values")
+	} else {
+		vAssert("second-kept-row-is-the-second-tuple", is(kept[1], v1))
+	}
+	vAssert("third-kept-row-is-the-third-tuple", is(kept[2], v2))
+	vReach("rows-kept-until-the-end-of-the-stream")
+}
+
+// ---------------------------------------------------------------------------
 // H14q — the binary COPY stream starts with the first CopyData message (C14,
 // C03): the Query (or Execute) message that starts the COPY carries surplus
 // bytes after its last field — legal, and ignored everywhere else. They belong
